@@ -13,6 +13,7 @@ open ParamVerif.Store
 
 /-- an observed value: int, or (container id, contents) -/
 inductive OVal
+  | none
   | int (n : Int)
   | cell (c : CellId) (l : List Int)
   deriving DecidableEq, Repr
@@ -48,6 +49,7 @@ structure Snap where
 /-! ### rendering a model world as an observation -/
 
 def obsVal (cells : List (List Int)) : Val → OVal
+  | .none => .none
   | .int n => .int n
   | .ref c => .cell c (deref cells c)
 
@@ -104,6 +106,7 @@ structure Occ where
   deriving DecidableEq, Repr
 
 def OVal.occ (h : Holder) (s : Site) (x : Name) : OVal → List Occ
+  | .none => []
   | .int _ => []
   | .cell c l => [⟨h, s, x, c, l⟩]
 
@@ -124,6 +127,7 @@ def Snap.cellIds (s : Snap) : List CellId := s.occs.map (·.cell)
 
 /-- contents erased: the reference structure only -/
 def OVal.shape : OVal → OVal
+  | .none => .none
   | .int n => .int n
   | .cell c _ => .cell c []
 def OPObj.shape (p : OPObj) : OPObj :=
@@ -209,6 +213,7 @@ def sameExceptCell (prev cur : Snap) (c : CellId) : Option String :=
 
 def litMatches (prev : Snap) (lit : Lit) (v : OVal) : Bool :=
   match lit, v with
+  | .none, .none => true
   | .int n, .int m => n = m
   | .list l, .cell c l' => l = l' && !(prev.cellIds.contains c)
   | _, _ => false
@@ -230,6 +235,7 @@ def creationOK (prev cur : Snap) (k : ClsId) (kwargs : List (Name × Lit)) : Opt
         | none, own =>
           if P.instantiate then
             match P.default, own with
+            | .none, some .none => none
             | .int n, some (.int m) => if n = m then none else some s!"p{x}: copied default differs"
             | .cell c l, some (.cell c' l') =>
               if l != l' then some s!"p{x}: copied default differs"
